@@ -34,7 +34,8 @@ TRUSTED_BASE = [
 ASSUMPTIONS = [
     "relativize-then-derelativize is proved for absolute names and for relative names below a non-empty origin; at the "
     "empty origin the code drops the name (recorded known finding, counterexample proved in Props/C06.lean)",
-    "dns.namedict.NameDict.get_deepest_match and sorted() are checked by the direct oracle only (not modelled)",
+    "sorted()/min()/max() and set()/dict collapse are checked by the direct oracle only (Python's sort and hashing are external); "
+    "dns.namedict.NameDict is modelled (Model/NameDict.lean) and tied on whole histories",
     "IDNA/unicode paths are outside the model",
 ]
 
@@ -487,6 +488,17 @@ def eval_case(ctx: Ctx, c: dict):
         ctx.count(f"{k}." + (("ok.abs" if is_abs(a) else "ok.rel") if v is not None else r.split(" ")[1]))
         if r.startswith("FOREIGN"):
             ctx.fail(f"C06/{k}/foreign-exception:" + r.split(" ")[1], f"{k}({a!r},{o!r},{p}) -> {r}", rep)
+        if not is_abs(o):
+            exp_err = "err NeedAbsoluteNameOrOrigin"
+        elif is_abs(a) and not ref_sub(a, o):
+            exp_err = "err NeedSubdomainOfOrigin"
+        else:
+            exp_err = None
+        if exp_err is not None and r != exp_err:
+            ctx.fail(f"C06/{k}/error-class", f"{k}({a!r}, origin={o!r}) -> {r}, expected {exp_err}", rep)
+        if v is None and is_abs(o) and ((is_abs(a) and ref_sub(a, o)) or (not is_abs(a) and wf(a + o))):
+            # total on its documented domain: a legal name at or below an absolute origin
+            ctx.fail(f"C06/{k}/raises-on-valid-input", f"{k}({a!r}, origin={o!r}, prefix_ok={bool(p)}) -> {r}", rep)
         if v is not None:
             res = list(v.labels)
             wrap = o if is_abs(a) else []
